@@ -60,12 +60,16 @@ func (P *residuePoint) Set(P2 kyber.Point) kyber.Point {
 		panic(ErrTypeCast)
 	}
 	P.g = p2Residue.g
-	P.Int = p2Residue.Int
+	// copy the value, not the big.Int struct: a struct copy shares the digit
+	// array, and a later in-place write to one point would change the other
+	P.Int.Set(&p2Residue.Int)
 	return P
 }
 
 func (P *residuePoint) Clone() kyber.Point {
-	return &residuePoint{g: P.g, Int: P.Int}
+	c := &residuePoint{g: P.g}
+	c.Int.Set(&P.Int)
+	return c
 }
 
 func (P *residuePoint) Valid() bool {
